@@ -303,6 +303,10 @@ func Property() runner.Property {
 				out = append(out, scenario(cfg{P: 10, L: 5, D: 0, N: 3, CancelErrAt: k, Fuzz: 1, Mode: "S2", Bound: 2}))
 			}
 
+			// long runs on the default schedule: nothing depends on how many cycles have passed
+			for _, ld := range [][2]int64{{0, 0}, {5, 5}, {11, 0}, {20, 15}} {
+				out = append(out, scenario(cfg{P: 10, L: ld[0], D: ld[1], N: 40, Fuzz: 1, Mode: "D0"}))
+			}
 			Ls, Ds := []int64{0, 5, 11, 20}, []int64{0, 5, 15}
 			if tier == "thorough" {
 				Ls = []int64{0, 5, 9, 11, 20, 50}
